@@ -192,3 +192,21 @@ def x_iadd_subscript(items: list, v: int):
 def x_minmax_single(a: int):
     # max / min of a one-element list is that element
     return (max([a]), min([a]), max([a, a + 1]))
+
+
+def x_max_short_slice(items: list, i: int):
+    # max / min over a slice of a few elements (TermCanvas.sgi_to_attrspec: max(attrs[idx + 2 : idx + 5]) > 255)
+    if 0 <= i and i + 4 < len(items):
+        return (max(items[i + 2 : i + 5]) > 3, min(items[i + 2 : i + 5]), max(items[i : i + 2]) <= 2)
+    return None
+
+
+def x_generator(rows: list, extra: list, k: int, w: int):
+    # a generator run to exhaustion (pyvc: generator_as_list): `yield from`, yield inside a loop over rows of a nested list,
+    # each row handed out as a list that is read, concatenated and sliced (TermCanvas.content)
+    if k == 0:
+        yield from rows
+    else:
+        buf = [*extra, *rows]
+        for row in buf[-(len(rows) + k) : -k]:
+            yield (row + [7] * (w - len(row)))[:w]
